@@ -195,8 +195,16 @@ func c08Filters(full bool) []caldav.CompFilter {
 			}
 		}
 		if full {
-			for i := 0; i < len(props); i += 3 {
-				for j := 1; j < len(props); j += 11 {
+			// strides grow with the family so that the product stays near 80 x 23 per name
+			si, sj := 3, 11
+			if len(props)/80 > si {
+				si = len(props) / 80
+			}
+			if len(props)/23 > sj {
+				sj = len(props)/23 | 1
+			}
+			for i := 0; i < len(props); i += si {
+				for j := 1; j < len(props); j += sj {
 					mid = append(mid, caldav.CompFilter{Name: n, Props: []caldav.PropFilter{props[i], props[j]}, Comps: []caldav.CompFilter{leaf[i%len(leaf)]}})
 				}
 			}
@@ -208,8 +216,15 @@ func c08Filters(full bool) []caldav.CompFilter {
 	for _, m := range mid {
 		out = append(out, caldav.CompFilter{Name: "VCALENDAR", Comps: []caldav.CompFilter{m}})
 	}
-	for i := 0; i < len(mid); i += 37 {
-		for j := 5; j < len(mid); j += 53 {
+	mi, mj := 37, 53
+	if len(mid)/110 > mi {
+		mi = len(mid)/110 | 1
+	}
+	if len(mid)/75 > mj {
+		mj = len(mid)/75 | 1
+	}
+	for i := 0; i < len(mid); i += mi {
+		for j := 5; j < len(mid); j += mj {
 			out = append(out, caldav.CompFilter{Name: "VCALENDAR", Comps: []caldav.CompFilter{mid[i], mid[j]}})
 		}
 	}
